@@ -20,13 +20,18 @@ CLAIMED = {
         note=TB + "Completeness clause: absence of an unmerged pair relies on the untrusted canonical-form search."),
     "C09": dict(
         category="proof", design="DESIGN.md §4 C09",
-        technique="Lean 4: delta-elimination soundness theorem (elim_sound/checkEquiv_sound), decide-proved lemma over the class table regenerated from the code, validated traces",
+        technique="Lean 4: executable model of the decision logic of evaluate_deltas (chooseDelta/deltaDecision over the class table regenerated from the code) with theorems (chosen_step_applies, evalDeltasStep_sound, deltaDecision_spec, deltaDecision_none), every recursion level of the code compared with the model's step; delta-elimination soundness (elim_sound/checkEquiv_sound); decide-proved table lemma",
         text="The 81-entry (space,spin)^2 behaviour table of KroneckerDelta/preferred_and_killable is regenerated from "
              "the running code and the information-order lemma is re-proved by decide on every run; eliminating a "
              "delta by any admissible substitution, in any order, is proved value-preserving for all models "
              "(elim_sound); each evaluate_deltas input/output pair is validated by the proved checker and its "
-             "recursion trace is checked step by step for the information/target clause.",
-        note=TB + "Table extractor harness/tables.py. The recursion of evaluate_deltas itself is validated per run, not translated."),
+             "recursion trace is checked step by step for the information/target clause. The decision logic itself is modelled "
+             "(Adc/DeltaEval.lean: first delta in argument order whose killable index is no target, else whose preferred index is no "
+             "target and carries equal information) and proved: the chosen step is always a legal elimination of a summed index "
+             "(chosen_step_applies), preserves the value (evalDeltasStep_sound), never removes a target and keeps at least the "
+             "information (deltaDecision_spec); a delta stays only if no index may be removed (deltaDecision_none, chooseDelta_none). "
+             "Every recursion level of every explored call is compared with the model's step.",
+        note=TB + "Table extractor harness/tables.py. The order in which sympy lists the deltas of a product is an input of the model (read from the code's arguments at every level), not modelled; 'target indices by the sum convention' (indices in exactly one argument) is restated harness-side and cross-checked against the argument the recursion passes on."),
 }
 
 CLAIMED["C06"] = dict(
